@@ -84,6 +84,7 @@ func TestC19(t *testing.T) {
 				return pr, nil
 			}
 		}
+		listen := func() {}
 		switch p.Mode {
 		case "ok":
 			addr, stop := inprocServer()
@@ -92,6 +93,22 @@ func TestC19(t *testing.T) {
 		case "ok-nolisten":
 			// a valid line, but nothing listens at the announced address: Start succeeds, Client() cannot
 			scripted(func(r *vp.ScriptRunner) { r.Out.Write([]byte("1|1|tcp|127.0.0.1:1|netrpc\n")) })
+		case "ok-latelisten":
+			// a valid line for a unix socket nobody listens on yet; the step "Listen" brings the server up
+			sock := filepath.Join(d, "late.sock")
+			scripted(func(r *vp.ScriptRunner) { fmt.Fprintf(r.Out, "1|1|unix|%s|netrpc\n", sock) })
+			listen = func() {
+				l, err := net.Listen("unix", sock)
+				if err != nil {
+					e.Note("listen-error", err.Error())
+					return
+				}
+				srv := &plugin.RPCServer{Plugins: vp.Set("netrpc", 1, []string{"kv"}, vp.NewCore()), Stdout: bytes.NewReader(nil), Stderr: bytes.NewReader(nil), DoneCh: make(chan struct{})}
+				go srv.Serve(l)
+				mu.Lock()
+				stops = append(stops, func() { l.Close() })
+				mu.Unlock()
+			}
 		case "fail-line":
 			scripted(func(r *vp.ScriptRunner) { r.Out.Write([]byte("garbage\n")) })
 		case "fail-proto":
@@ -170,6 +187,9 @@ func TestC19(t *testing.T) {
 					r.OK, r.Bool = true, cl.Exited()
 				case "Kill":
 					cl.Kill()
+					r.OK = true
+				case "Listen":
+					listen()
 					r.OK = true
 				}
 			})
